@@ -5,6 +5,7 @@ CONSTANTS
   GenFaults = {"ok", "exception", "trunc", "dotdot", "samepath"}
   ByeFaults = {"ok", "noreply"}
   NamesGoodbyeFailure = TRUE
+  DetachesStdout = TRUE
 INVARIANTS GenerateOnlyAfterGoodHandshake ExactlyOneGoodbye GoodbyeIsLast AllClosedAllReaped ExitCodeIffFailure FailureNamesPlugin OnlyFailingPluginsNamed WriteOnlyOnSuccess ProtocolAutomaton SentIsScriptDetermined NeverStuck
 PROPERTY Terminates
 CHECK_DEADLOCK FALSE
